@@ -376,6 +376,34 @@ pub fn progress(family: &str, index: usize, data: &Value) {
     });
 }
 
+/// Marks this thread's slot as idle (no case in flight).
+pub fn progress_clear() {
+    SLOT.with(|s| {
+        if let Some(f) = s.borrow().as_ref() {
+            use std::os::unix::fs::FileExt;
+            let _ = f.write_all_at(b"\n", 0);
+        }
+    });
+}
+
+/// Age in seconds of the oldest case still in flight (a slot that names a case and has not been
+/// rewritten since), if any.
+pub fn oldest_in_flight_s(dir: &str) -> Option<f64> {
+    let mut worst: Option<f64> = None;
+    if let Ok(rd) = std::fs::read_dir(dir) {
+        for e in rd.flatten() {
+            let busy = std::fs::read_to_string(e.path()).map(|t| t.lines().next().map(|l| l.splitn(3, '\t').count() == 3).unwrap_or(false)).unwrap_or(false);
+            if !busy {
+                continue;
+            }
+            if let Ok(age) = e.metadata().and_then(|m| m.modified()).map(|t| t.elapsed().map(|d| d.as_secs_f64()).unwrap_or(0.0)) {
+                worst = Some(worst.map_or(age, |w: f64| w.max(age)));
+            }
+        }
+    }
+    worst
+}
+
 pub fn read_progress(dir: &str) -> Vec<Replay> {
     let mut out: Vec<Replay> = vec![];
     if let Ok(rd) = std::fs::read_dir(dir) {
